@@ -11,7 +11,7 @@ import json
 import random
 
 from .. import vlib
-from ..eccrig import SECP, SMALL, Enc, h_add, h_G, h_mul, rec_point_result, retarget, scripted_rng, retarget_applies, probe_group
+from ..eccrig import SECP, SMALL, Enc, h_add, h_G, h_mul, rec_point_result, retarget, scripted_rng, retarget_applies, probe_group, probe_keys
 
 
 def _pt(v):
@@ -32,6 +32,7 @@ def _stage_ab(ctx):
         n = 0
         if not retarget_applies(c, probe_group, ctx, "ecmath.point_add / point_scalar_mul"):
             continue
+        keys_follow = retarget_applies(c, probe_keys, ctx, "keys.key / compute_point")
         with retarget(c):
             for row in rows:
                 if row[1] == "padd":
@@ -59,6 +60,9 @@ def _stage_ab(ctx):
             import bits
             import bits.keys
             # every pair of first draws (then the second repeated), and runs of 0 / n-1: "whatever the source returns"
+            if not keys_follow:
+                ctx.stage_b(f"MC_EC_{cn} rows", n, rows=len(rows))
+                continue
             seqs = [[d1] + [d2] * 6 for d1 in range(c["n"]) for d2 in range(c["n"])]
             seqs += [[0] * k + [v] * 3 for k in range(1, 7) for v in (1, c["n"] - 1)] + [[0] * 12, [c["n"] - 1] * 12]
             for seq in seqs:
